@@ -79,7 +79,12 @@ func C20(c *Ctx) {
 		}
 		s := &speller{r: rand.New(rand.NewSource(rng.Int63())), subset: true}
 		s.grammar(init, rules)
-		jobs = append(jobs, job{s.sb.String(), nodes})
+		text := s.sb.String()
+		if i%5 == 4 {
+			// the same grammar saved with CRLF line endings
+			text = strings.ReplaceAll(strings.ReplaceAll(text, "\r\n", "\n"), "\n", "\r\n")
+		}
+		jobs = append(jobs, job{text, nodes})
 	}
 	rejectedBoot, rejectedBoth, compared := 0, 0, 0
 	parallel(len(jobs), 16, func(i int) {
